@@ -66,8 +66,8 @@ def run(ctx):
                "DevPushTimeoutDrop": dict(ext_ideal["backpressure"], dev=["DevPushTimeoutDrop"])}
     if not q:
         ext_ideal["split"] = dict(topo="fork", ops=("tclose", "rev"), maxf=1, maxr=1, split=True)
-        ext_ideal["exitclose"] = dict(topo="chain", ntun=3, kinds=U3, ops=("xexpire", "disc"), maxf=1, maxr=0, burn=["T>X"])
-        ext_ideal["backpressure"] = dict(topo="chain", ntun=2, ops=("rev", "tclose"), maxf=0, maxr=3, bufcap=2)
+        ext_ideal["exitclose"] = dict(topo="chain", ntun=3, kinds=U3, ops=("xexpire",), maxf=0, maxr=0, burn=["T>X"])
+        ext_ideal["backpressure"] = dict(topo="chain", ntun=2, ops=("rev",), maxf=0, maxr=2, bufcap=1)
 
     def ext_cfg(c, invs):
         c = dict(c)
